@@ -83,6 +83,18 @@ def run (ctx):
   for f, c in downs:
     ctx.ob('R-OWN', f, "ConnectionDown is raised only by Connection.disconnect (`%s`)" % norm(c.func), f is disc, "in disconnect" if f is disc else "%s raises ConnectionDown" % f.qual, (f.module, c), 'D4')
   current_table_dispatch(ctx, repo, mod, con, 'D3')
+  # the attribute that remembers the outstanding barrier request: whatever the handshake handlers bind to a new ofp_barrier_request
+  # (a consistent rename of the private attribute changes nothing)
+  BAR = 'self._barrier'
+  def is_bar_ (f_, v_):
+    if isinstance(v_, ast.Call) and call_name(v_) == 'ofp_barrier_request': return True
+    if isinstance(v_, ast.Name):
+      d_ = q.single_def(f_.node, v_.id)
+      return isinstance(d_, ast.Call) and call_name(d_) == 'ofp_barrier_request'
+    return False
+  cand_ = set(norm(t_) for f_ in hs.methods.values() for t_, v_, st_, k_ in q.stores_in(f_.node)
+              if isinstance(t_, ast.Attribute) and norm(t_.value) == 'self' and is_bar_(f_, v_))
+  if len(cand_) == 1: BAR = list(cand_)[0]
   # ---- D1 callers of _finish_connecting --------------------------------------------------
   callers = []
   for m in (mod, nmod):
@@ -95,9 +107,9 @@ def run (ctx):
     ctx.ob('R-OWN', f, "handshake is finished only from the barrier-reply / barrier-unsupported paths", okf, f.name if okf else "%s finishes the handshake" % f.qual, (mod, c), 'D1')
     if not okf: continue
     g = q.cfg_of(f); n = q.enclosing_stmt_node(g, c); fs = q.fact_strs(g, n)
-    ctx.ob('R-DOM', f, "finish only once a barrier request is outstanding", 'self._barrier:truthy' in fs, "dominated by self._barrier" if 'self._barrier:truthy' in fs else "facts %s" % fs, (mod, c), 'D1')
+    ctx.ob('R-DOM', f, "finish only once a barrier request is outstanding", (BAR + ':truthy') in fs, "dominated by %s" % BAR if (BAR + ':truthy') in fs else "facts %s" % fs, (mod, c), 'D1')
     msg = f.params[-1]
-    xid_ok = ('%s.xid == self._barrier.xid' % msg) in fs
+    xid_ok = ('%s.xid == %s.xid' % (msg, BAR)) in fs or ('%s.xid == %s.xid' % (BAR, msg)) in fs
     ctx.ob('R-DOM', f, "finish only for the reply to *this* barrier (xid)", xid_ok, "xid equals the stored barrier's" if xid_ok else "not guarded by the barrier's xid (facts %s): any barrier reply / error completes the handshake" % fs, (mod, c), 'D1')
     if f.name == 'handle_ERROR':
       pat = ('%s.type == of.OFPET_BAD_REQUEST' % msg) in fs and ('%s.code == of.OFPBRC_BAD_TYPE' % msg) in fs
@@ -105,7 +117,7 @@ def run (ctx):
   bar = []
   for f in [f for c in mod.classes.values() for f in c.methods.values()]:
     for t, v, st, k in q.stores_in(f.node):
-      if norm(t) == 'self._barrier' and not (isinstance(v, ast.Constant) and v.value is None): bar.append((f, st))
+      if norm(t) == BAR and not (isinstance(v, ast.Constant) and v.value is None): bar.append((f, st))
   for f, st in bar:
     okf = f.cls is hs and f.name == 'handle_FEATURES_REPLY'
     ctx.ob('R-OWN', f, "the barrier is requested only after a features reply", okf, f.name, (mod, st), 'D1')
@@ -114,7 +126,7 @@ def run (ctx):
       feats = [q.enclosing_stmt_node(g, s_) for t, v, s_, k in q.stores_in(f.node) if isinstance(t, ast.Attribute) and t.attr == 'features']
       dp = [q.enclosing_stmt_node(g, s_) for t, v, s_, k in q.stores_in(f.node) if isinstance(t, ast.Attribute) and t.attr == 'dpid']
       ctx.ob('R-ORDER', f, "features and dpid are recorded before the barrier goes out", bool(feats) and bool(dp) and g.dominates(feats[0], n) and g.dominates(dp[0], n), "con.features / con.dpid stores dominate the barrier", (mod, st), 'D1')
-      snd = g.nodes_with_call(lambda c: call_name(c) == 'send' and c.args and norm(c.args[0]) == 'self._barrier')
+      snd = g.nodes_with_call(lambda c: call_name(c) == 'send' and c.args and (norm(c.args[0]) == BAR or (isinstance(c.args[0], ast.Name) and isinstance(st, ast.Assign) and isinstance(st.value, ast.Name) and st.value.id == c.args[0].id)))
       ctx.ob('R-EFFECT', f, "the stored barrier is the one sent", bool(snd) and g.dominates(n, snd[0]), "con.send(self._barrier)", (mod, st), 'D1')
   # ---- D2 / D3 inside _finish_connecting -----------------------------------------------------
   g = q.cfg_of(fin); c_ = fin.params[1]
